@@ -388,6 +388,15 @@ def r0_urls(ctx):
                 want = C("Some", S(a)) if a != "en" else C("None")
                 if got != want:
                     bad.setdefault("read-locale", "base path %r: the locale of `%s` is read as %s, expected %s" % (base, src, absint.fmt(got), absint.fmt(want)))
+        if bsegs:
+            # a locale glued to the base path: `/foofr/x` under the base path `foo` has the first segment `foofr`
+            for glued in ("fr/x", "en", "de/about", "fr"):
+                got = locale_of("/" + "/".join(bsegs[:-1] + [bsegs[-1] + glued]), base)
+                if isinstance(got, str):
+                    return r, False, got
+                n_rd += 1
+                if got != C("None"):
+                    bad.setdefault("read-locale", "base path %r: `/%s` continues the base path's last segment, it is not a locale segment, yet %s is read" % (base, "/".join(bsegs[:-1] + [bsegs[-1] + glued]), absint.fmt(got)))
         for near in ("english", "frites/x", "fr-CA/x", "e", "xfr/fr", "", "FR/x", "Fr", "EN", "fR/about", "de /x", "%66r/x"):
             src = "/" + "/".join(bsegs + [near]) if near else "/" + "/".join(bsegs)
             got = locale_of(src, base)
